@@ -44,10 +44,10 @@ func (f *fakeMem) Write(a uint32, v byte) {
 	}
 	f.written[a] = v
 }
-func (f *fakeMem) Shutdown()            {}
-func (f *fakeMem) Size() uint32         { return 1 << 24 }
-func (f *fakeMem) Clear()               {}
-func (f *fakeMem) Dump(uint32) []byte   { return nil }
+func (f *fakeMem) Shutdown()          {}
+func (f *fakeMem) Size() uint32       { return 1 << 24 }
+func (f *fakeMem) Clear()             {}
+func (f *fakeMem) Dump(uint32) []byte { return nil }
 
 type c13mem struct {
 	fake   *fakeMem
